@@ -252,7 +252,162 @@ fn overriding_user_types(ctx: &mut Ctx) {
 	}
 }
 
+/// A key type whose order ignores case: equal keys need not be identical, so it matters WHICH of two
+/// equal keys a decoded set or map keeps - the same one whatever the input is read from.
+#[derive(Debug, Clone, Encode, Decode)]
+pub struct CiName(pub String);
+impl PartialEq for CiName {
+	fn eq(&self, o: &Self) -> bool {
+		self.0.eq_ignore_ascii_case(&o.0)
+	}
+}
+impl Eq for CiName {}
+impl PartialOrd for CiName {
+	fn partial_cmp(&self, o: &Self) -> Option<core::cmp::Ordering> {
+		Some(self.cmp(o))
+	}
+}
+impl Ord for CiName {
+	fn cmp(&self, o: &Self) -> core::cmp::Ordering {
+		self.0.to_ascii_lowercase().cmp(&o.0.to_ascii_lowercase())
+	}
+}
+
+/// A zero-width "end of input" marker: reads nothing, fails unless the input is exhausted, and says
+/// (truthfully) that its encoded size is 0.
+#[derive(Debug, PartialEq, Eq, Clone, Copy)]
+pub struct EndMarker;
+impl Decode for EndMarker {
+	fn decode<I: parity_scale_codec::Input>(input: &mut I) -> Result<Self, parity_scale_codec::Error> {
+		match input.remaining_len()? {
+			Some(0) | None => Ok(EndMarker),
+			Some(_) => Err("data after the end marker".into()),
+		}
+	}
+	fn encoded_fixed_size() -> Option<usize> {
+		Some(0)
+	}
+}
+
+fn order_and_marker_types(ctx: &mut Ctx) {
+	use std::collections::{BTreeMap, BTreeSet};
+	// non-canonical encodings with keys that are equal under the order but not identical
+	let names = ["alice", "ALICE", "Bob", "alIce", "bob", "carol", "BOB"];
+	let mut set_bytes = Compact(names.len() as u32).encode();
+	let mut map_bytes = Compact(names.len() as u32).encode();
+	for (i, n) in names.iter().enumerate() {
+		set_bytes.extend_from_slice(&n.to_string().encode());
+		map_bytes.extend_from_slice(&n.to_string().encode());
+		map_bytes.push(i as u8);
+	}
+	set_bytes.push(0x77);
+	map_bytes.push(0x77);
+	macro_rules! everywhere { ($t:ty, $bs:expr, $label:expr) => {{
+		let bs: &Vec<u8> = &$bs;
+		let from_slice = catch_unwind(AssertUnwindSafe(|| {
+			let mut s = &bs[..];
+			<$t>::decode(&mut s).ok().map(|v| (v.encode(), s.len()))
+		}))
+		.unwrap_or(None);
+		let mut others: Vec<(&str, Option<(Vec<u8>, usize)>)> = vec![];
+		others.push(("an unknown-length input", catch_unwind(AssertUnwindSafe(|| {
+			let mut u = crate::userext::Unk2 { data: &bs[..], pos: 0 };
+			<$t>::decode(&mut u).ok().map(|v| (v.encode(), bs.len() - u.pos))
+		})).unwrap_or(None)));
+		#[cfg(feature = "codec-std")]
+		others.push(("IoReader", catch_unwind(AssertUnwindSafe(|| {
+			let mut io = parity_scale_codec::IoReader(std::io::Cursor::new(&bs[..]));
+			<$t>::decode(&mut io).ok().map(|v| (v.encode(), bs.len() - io.0.position() as usize))
+		})).unwrap_or(None)));
+		others.push(("a counting input over an unknown-length input", catch_unwind(AssertUnwindSafe(|| {
+			let mut u = crate::userext::Unk2 { data: &bs[..], pos: 0 };
+			let mut c = parity_scale_codec::CountedInput::new(&mut u);
+			<$t>::decode(&mut c).ok().map(|v| (v.encode(), bs.len() - u.pos))
+		})).unwrap_or(None)));
+		for (kind, got) in others {
+			if got != from_slice || from_slice.is_none() {
+				ctx.oracle_fail("C08", format!("{} with keys equal under a case-insensitive order: from a slice {:?}, from {} {:?} (re-encoded value, bytes left)", $label, from_slice.as_ref().map(|x| (hex_or_dash(&x.0), x.1)), kind, got.as_ref().map(|x| (hex_or_dash(&x.0), x.1))));
+			}
+		}
+	}}; }
+	everywhere!(BTreeSet<CiName>, set_bytes, "BTreeSet<CiName>");
+	everywhere!(BTreeMap<CiName, u8>, map_bytes, "BTreeMap<CiName, u8>");
+	everywhere!((u8, BTreeSet<CiName>), [vec![5u8], set_bytes.clone()].concat(), "(u8, BTreeSet<CiName>)");
+	ctx.count("userext:order-cases", 3);
+	// `skip` fails exactly where `decode` fails - also for a type that reads nothing
+	for (label, bs) in [("exhausted input", vec![]), ("data left", vec![1u8, 2])] {
+		macro_rules! same { ($t:ty, $name:expr) => {{
+			let d = catch_unwind(AssertUnwindSafe(|| { let mut s = &bs[..]; <$t>::decode(&mut s).is_ok() }));
+			let k = catch_unwind(AssertUnwindSafe(|| { let mut s = &bs[..]; <$t>::skip(&mut s).is_ok() }));
+			if !matches!((&d, &k), (Ok(a), Ok(b)) if a == b) {
+				ctx.oracle_fail("C18", format!("{} on {}: decode ok = {:?}, skip ok = {:?}", $name, label, d.ok(), k.ok()));
+			}
+		}}; }
+		same!(EndMarker, "EndMarker");
+		same!([EndMarker; 2], "[EndMarker; 2]");
+		same!([[EndMarker; 2]; 3], "[[EndMarker; 2]; 3]");
+		same!((u8, [EndMarker; 1]), "(u8, [EndMarker; 1])");
+		same!(Option<[EndMarker; 4]>, "Option<[EndMarker; 4]>");
+	}
+	ctx.count("userext:end-marker-cases", 10);
+}
+
+/// An input that cannot report its remaining length.
+pub struct Unk2<'a> {
+	pub data: &'a [u8],
+	pub pos: usize,
+}
+impl parity_scale_codec::Input for Unk2<'_> {
+	fn remaining_len(&mut self) -> Result<Option<usize>, parity_scale_codec::Error> {
+		Ok(None)
+	}
+	fn read(&mut self, into: &mut [u8]) -> Result<(), parity_scale_codec::Error> {
+		if into.len() > self.data.len() - self.pos {
+			return Err("eof".into());
+		}
+		into.copy_from_slice(&self.data[self.pos..self.pos + into.len()]);
+		self.pos += into.len();
+		Ok(())
+	}
+}
+
+/// Which types carry the `DecodeWithMemTracking` marker is part of C12 ("every type it is offered
+/// for announces what it allocates"): a user type that allocates WITHOUT announcing does not carry
+/// it, and no wrapper the crate provides may smuggle it in.
+#[derive(Debug, Clone, PartialEq, Encode, Decode)]
+pub struct NoTrack(pub Vec<u8>);
+
+fn marker_probes(ctx: &mut Ctx) {
+	#[allow(unused_imports)]
+	use crate::probe::{Fallback, Probe};
+	use std::borrow::Cow;
+	let expect: [(&str, bool, bool); 14] = [
+		("NoTrack", <Probe<NoTrack>>::IS_DWMT, false),
+		("Cow<NoTrack>", <Probe<Cow<'static, NoTrack>>>::IS_DWMT, false),
+		("Box<NoTrack>", <Probe<Box<NoTrack>>>::IS_DWMT, false),
+		("Vec<NoTrack>", <Probe<Vec<NoTrack>>>::IS_DWMT, false),
+		("Option<NoTrack>", <Probe<Option<NoTrack>>>::IS_DWMT, false),
+		("(u8, NoTrack)", <Probe<(u8, NoTrack)>>::IS_DWMT, false),
+		("[NoTrack; 2]", <Probe<[NoTrack; 2]>>::IS_DWMT, false),
+		("Rc<NoTrack>", <Probe<std::rc::Rc<NoTrack>>>::IS_DWMT, false),
+		("BTreeMap<u8, NoTrack>", <Probe<std::collections::BTreeMap<u8, NoTrack>>>::IS_DWMT, false),
+		("Vec<Cow<NoTrack>>", <Probe<Vec<Cow<'static, NoTrack>>>>::IS_DWMT, false),
+		("Cow<Vec<u8>>", <Probe<Cow<'static, Vec<u8>>>>::IS_DWMT, true),
+		("Vec<u8>", <Probe<Vec<u8>>>::IS_DWMT, true),
+		("BoxedHash", <Probe<BoxedHash>>::IS_DWMT, true),
+		("Result<Vec<u8>, NoTrack>", <Probe<Result<Vec<u8>, NoTrack>>>::IS_DWMT, false),
+	];
+	for (name, got, want) in expect {
+		if got != want {
+			ctx.oracle_fail("C12", format!("{}: DecodeWithMemTracking implemented = {}, expected {} (NoTrack allocates without announcing and does not carry the marker)", name, got, want));
+		}
+	}
+	ctx.count("userext:marker-probes", 14);
+}
+
 pub fn userext_stream(ctx: &mut Ctx) {
+	marker_probes(ctx);
+	order_and_marker_types(ctx);
 	percent_cases(ctx);
 	deep_cases(ctx);
 	overriding_user_types(ctx);
